@@ -275,10 +275,16 @@ var c11jobs = []int{0, 1, 2, 3, 8, 16}
 var c11gmps = []int{1, 2, 16}
 
 func c11compare(l, r *c11side, so gedcom.SimilarityOptions, jobs, gmp int) gedcom.IndividualComparisons {
-	old := runtime.GOMAXPROCS(gmp)
-	defer runtime.GOMAXPROCS(old)
 	opts := gedcom.NewIndividualNodesCompareOptions()
 	opts.SimilarityOptions = so
+	return c11compareWith(l, r, opts, jobs, gmp)
+}
+
+// c11compareWith runs Compare with a given options value (fresh, or one that already ran a comparison:
+// its sentA/sentB are never reset).
+func c11compareWith(l, r *c11side, opts *gedcom.IndividualNodesCompareOptions, jobs, gmp int) gedcom.IndividualComparisons {
+	old := runtime.GOMAXPROCS(gmp)
+	defer runtime.GOMAXPROCS(old)
 	opts.Jobs = jobs
 	if jobs%2 == 0 { // as cmd/gedcom/diff.go does: a progress notifier drained by the caller
 		ch := make(chan gedcom.Progress)
@@ -449,11 +455,28 @@ func c11one(c *Ctx, idx int) {
 		}
 		check(c11compare(l, rt, so, j, g), j, g)
 	}
+	// history: the same options value is used for a second Compare (as a caller comparing several
+	// pairs of documents with one configuration would)
+	reused := gedcom.NewIndividualNodesCompareOptions()
+	reused.SimilarityOptions = so
+	c11compareWith(l, rt, reused, 1, 1)
+	j2 := c11jobs[r.Intn(len(c11jobs))]
+	second := c11compareWith(l, rt, reused, j2, c11gmps[r.Intn(len(c11gmps))])
+	c.Eval()
+	c.Count("run:second Compare with the same options value")
+	if v := c11valid(l, rt, so, second); v != "" {
+		inp := in(j2, 0)
+		inp["history"] = "second Compare of one IndividualNodesCompareOptions value (first: Jobs=1)"
+		c.Oracle(key, "the result is not a valid one-to-one matching: "+c11class(v), inp, v+" | result: "+c11canon(ids, second), "every individual in exactly one result")
+	}
 	// correspondence: the sequential order, and permuted arrival orders
 	reqBase := fmt.Sprintf("match %s %s %s %s %s %s", c11persons(l), c11persons(rt), c11exact(so.PreferPointerAbove),
 		c11exact(so.MinimumWeightedSimilarity), tab(tT), tab(tF))
 	for _, k := range []int{0, 1, 2 + r.Intn(40)} {
 		c.Tie(fmt.Sprintf("%s %d", reqBase, k), refS)
+	}
+	if j2 <= 1 || (!ties && !dup) {
+		c.Tie(fmt.Sprintf("match2%s 0", strings.TrimPrefix(reqBase, "match")), c11canon(ids, second))
 	}
 	c.Nontrivial(refS + "|" + o.wire())
 	if idx < 2 {
@@ -494,9 +517,11 @@ func c11cmp(req, impl, model string) bool {
 	if c11skipped != nil && strings.HasSuffix(req, " 0") {
 		c11skipped("model-guards:" + flags)
 	}
-	if strings.Contains(flags, "amb=1") {
+	amb := strings.Contains(flags, "amb=1")
+	if amb && strings.HasPrefix(req, "match2 ") {
+		// the two calls may resolve an ambiguous unique-identifier choice differently (map order)
 		if c11skipped != nil {
-			c11skipped("outside-model:ambiguous-unique-ids")
+			c11skipped("reused-options-not-compared:ambiguous-unique-ids")
 		}
 		return true
 	}
@@ -507,7 +532,16 @@ func c11cmp(req, impl, model string) bool {
 		}
 		return true
 	}
-	return pairs == impl
+	// one model answer per resolution of the ambiguous choices: the implementation made one of them
+	for _, ans := range strings.Split(pairs, " | ") {
+		if strings.TrimSpace(ans) == impl {
+			if amb && c11skipped != nil {
+				c11skipped("ambiguous-unique-ids:implementation matches one resolution")
+			}
+			return true
+		}
+	}
+	return false
 }
 
 var c11skipped func(string)
